@@ -40,6 +40,7 @@ func runC03(c *Ctx) {
 	c03R5(c, p)
 	rulePairs(c, p, "C03.R6")
 	boardCopyRule(c, p, "C03.R7")
+	c03R8(c, p)
 }
 
 // boardWrites: Board fields stored by fn and its callees inside package board.
@@ -1111,6 +1112,10 @@ func init() {
 		Mutant{Name: "C03.R1-nullmove-ep-not-restored", Prop: "C03", File: "board/board.go",
 			Old: "\tb.EnPassant = r.enPassantChange()\n", New: "\t_ = r\n",
 			Expect: "C03.R1/board.(*Board).MakeNullMove#board.Board.EnPassant"},
+		Mutant{Name: "C03.R8-castling-field-written-before-the-clock", Prop: "C03", File: "board/board.go", Quick: true,
+			Old: "\tr.setFiftyCnt(b.FiftyCnt)\n", New: "\tr.setCastlingChange(castlingChange)\n\tr.setFiftyCnt(b.FiftyCnt)\n",
+			Old2: "\tb.Castles ^= castlingChange\n\tr.setCastlingChange(castlingChange)\n", New2: "\tb.Castles ^= castlingChange\n", File2: "board/board.go",
+			Expect: "C03.R8/board.(*Board).MakeMove#setFiftyCnt-before-setCastlingChange"},
 		Mutant{Name: "C03.R2-capture-field-too-narrow", Prop: "C03", File: "board/board.go", Quick: true,
 			Old: "captureMask         = Reverse(0x00000000001c0000)", New: "captureMask         = Reverse(0x00000000000c0000)",
 			Expect: "C03.R2/board.(*Reverse).setCapture#width"},
@@ -1151,4 +1156,128 @@ func init() {
 			Old: "\tpiece := rmPiece\n\tif m.Promo() != NoPiece {\n\t\tpiece = Pawn\n\t}\n", New: "\tpiece := rmPiece\n",
 			Expect: "C03.R5/UndoMove#unpromote"},
 	)
+}
+
+// c03R8: a token setter that stores a value of a SIGNED type writes `Reverse(v) << shift` without
+// masking: for a negative v the conversion sign-extends and sets every bit above its field. The
+// halfmove clock is such a value (int8, and it does go negative: known finding F-2). That is harmless
+// only while the fields above are written afterwards (each setter clears its own field first). So in
+// every function that fills a token, no setter of a higher field may be followed by a spilling setter
+// of a lower one.
+func c03R8(c *Ctx, p *Prog) {
+	const rule = "C03.R8"
+	type setter struct {
+		fn     *ssa.Function
+		shift  int64
+		signed bool
+		masked bool
+	}
+	var setters []setter
+	for _, fn := range p.OwnFuncs() {
+		if relPkg(fnPkgPath(fn)) != "board" || fn.Signature.Recv() == nil || len(fn.Params) != 2 {
+			continue
+		}
+		pt, ok := fn.Params[0].Type().Underlying().(*types.Pointer)
+		if !ok {
+			continue
+		}
+		if n, ok := types.Unalias(pt.Elem()).(*types.Named); !ok || n.Obj().Name() != "Reverse" {
+			continue
+		}
+		val := fn.Params[1]
+		bt, ok := val.Type().Underlying().(*types.Basic)
+		if !ok || bt.Info()&types.IsInteger == 0 {
+			continue
+		}
+		s := setter{fn: fn, signed: bt.Info()&types.IsUnsigned == 0}
+		found := false
+		allInstrs(fn, func(in ssa.Instruction) {
+			sh, ok := in.(*ssa.BinOp)
+			if !ok || sh.Op != token.SHL {
+				return
+			}
+			k, isc := constOf(sh.Y)
+			if !isc {
+				return
+			}
+			// the shifted operand: conversion of the parameter, possibly masked
+			x := sh.X
+			if cv, ok := x.(*ssa.Convert); ok && cv.X == ssa.Value(val) {
+				s.shift, found = k, true
+				return
+			}
+			if and, ok := x.(*ssa.BinOp); ok && and.Op == token.AND {
+				for _, o := range []ssa.Value{and.X, and.Y} {
+					if cv, ok := o.(*ssa.Convert); ok && cv.X == ssa.Value(val) {
+						s.shift, s.masked, found = k, true, true
+					}
+				}
+			}
+		})
+		// also: mask applied after the shift
+		if found && !s.masked {
+			allInstrs(fn, func(in ssa.Instruction) {
+				if and, ok := in.(*ssa.BinOp); ok && and.Op == token.AND {
+					for _, o := range []ssa.Value{and.X, and.Y} {
+						if sh, ok := o.(*ssa.BinOp); ok && sh.Op == token.SHL {
+							if _, isc := constOf(sh.Y); isc {
+								if cv, ok := sh.X.(*ssa.Convert); ok && cv.X == ssa.Value(val) {
+									// `(Reverse(v) << shift) & fieldMask`
+									if _, isK := stripConv(and.X).(*ssa.Const); isK {
+										s.masked = true
+									}
+									if _, isK := stripConv(and.Y).(*ssa.Const); isK {
+										s.masked = true
+									}
+								}
+							}
+						}
+					}
+				}
+			})
+		}
+		if found {
+			setters = append(setters, s)
+		}
+	}
+	c.Floor(rule+".setters", len(setters), 2, "Reverse token setters")
+	n := 0
+	for _, sp := range setters {
+		if !sp.signed || sp.masked {
+			continue
+		}
+		// sp spills into every field above its shift when its value is negative
+		for _, caller := range p.OwnFuncs() {
+			var spCalls []ssa.CallInstruction
+			for _, sc := range callsIn(caller, fnName(sp.fn)) {
+				// only values that can actually be negative: the halfmove clock, an int8 incremented without bound (F-2)
+				args := sc.Common().Args
+				if len(args) == 2 && isFieldLoad(stripConv(args[1]), "Board.FiftyCnt") {
+					spCalls = append(spCalls, sc)
+				}
+			}
+			if len(spCalls) == 0 {
+				continue
+			}
+			for _, hi := range setters {
+				if hi.fn == sp.fn || hi.shift <= sp.shift {
+					continue
+				}
+				for _, hc := range callsIn(caller, fnName(hi.fn)) {
+					for _, sc := range spCalls {
+						n++
+						key := fmt.Sprintf("%s#%s-before-%s", fnName(caller), sp.fn.Name(), hi.fn.Name())
+						if r, _ := reachAvoiding(hc.(ssa.Instruction), sc.(ssa.Instruction), nil); r {
+							c.Fail(rule, key, sc.Pos(), "%s stores a signed value without masking (a negative value sign-extends over the higher token fields) and can run AFTER %s has filled its field: the field is overwritten with ones and the undo restores garbage (castling rights, en-passant square or captured piece)", sp.fn.Name(), hi.fn.Name())
+						} else {
+							c.Ok(rule, key, sc.Pos(), "the unmasked signed store of %s runs before %s fills its (higher) field", sp.fn.Name(), hi.fn.Name())
+						}
+					}
+				}
+			}
+		}
+	}
+	if n == 0 {
+		c.OkTrivial(rule, "no-spilling-setter", 0, "no token setter stores an unmasked signed value next to higher fields")
+	}
 }
